@@ -5,3 +5,5 @@ package pipeline
 func verifFinalize(*Pipeline, *Event, bool, bool) {}
 
 func verifAfterStreamCommit(*Pipeline, *Event) {}
+
+func verifAntispamTick(*Pipeline) {}
